@@ -477,21 +477,19 @@ func (m *memory) Objects(ctx context.Context, s *node.Node, p *predicate.Predica
 	selectedTrpls := applyGlobalTimeBounds(m.idxSP[spIdx], ckr)
 
 	var err error
+	// The caller's lookup options are never modified: they may be shared between goroutines.
+	filterOptions := lo.FilterOptions
 	if lo.LatestAnchor {
-		if lo.FilterOptions != nil {
+		if filterOptions != nil {
 			return fmt.Errorf("cannot have LatestAnchor and FilterOptions used at the same time inside lookup options")
 		}
-		lo.FilterOptions = &filter.StorageOptions{
+		filterOptions = &filter.StorageOptions{
 			Operation: filter.Latest,
 			Field:     filter.PredicateField,
 		}
-		// To guarantee that "lo.FilterOptions" will be cleaned at the driver level, since it was artificially created at the driver level for "LatestAnchor".
-		defer func() {
-			lo.FilterOptions = (*filter.StorageOptions)(nil)
-		}()
 	}
-	if lo.FilterOptions != nil {
-		selectedTrpls, err = executeFilter(selectedTrpls, p, lo.FilterOptions)
+	if filterOptions != nil {
+		selectedTrpls, err = executeFilter(selectedTrpls, p, filterOptions)
 		if err != nil {
 			return err
 		}
@@ -530,21 +528,19 @@ func (m *memory) Subjects(ctx context.Context, p *predicate.Predicate, o *triple
 	selectedTrpls := applyGlobalTimeBounds(m.idxPO[poIdx], ckr)
 
 	var err error
+	// The caller's lookup options are never modified: they may be shared between goroutines.
+	filterOptions := lo.FilterOptions
 	if lo.LatestAnchor {
-		if lo.FilterOptions != nil {
+		if filterOptions != nil {
 			return fmt.Errorf("cannot have LatestAnchor and FilterOptions used at the same time inside lookup options")
 		}
-		lo.FilterOptions = &filter.StorageOptions{
+		filterOptions = &filter.StorageOptions{
 			Operation: filter.Latest,
 			Field:     filter.PredicateField,
 		}
-		// To guarantee that "lo.FilterOptions" will be cleaned at the driver level, since it was artificially created at the driver level for "LatestAnchor".
-		defer func() {
-			lo.FilterOptions = (*filter.StorageOptions)(nil)
-		}()
 	}
-	if lo.FilterOptions != nil {
-		selectedTrpls, err = executeFilter(selectedTrpls, p, lo.FilterOptions)
+	if filterOptions != nil {
+		selectedTrpls, err = executeFilter(selectedTrpls, p, filterOptions)
 		if err != nil {
 			return err
 		}
@@ -585,21 +581,19 @@ func (m *memory) PredicatesForSubjectAndObject(ctx context.Context, s *node.Node
 	selectedTrpls := applyGlobalTimeBounds(m.idxSO[soIdx], ckr)
 
 	var err error
+	// The caller's lookup options are never modified: they may be shared between goroutines.
+	filterOptions := lo.FilterOptions
 	if lo.LatestAnchor {
-		if lo.FilterOptions != nil {
+		if filterOptions != nil {
 			return fmt.Errorf("cannot have LatestAnchor and FilterOptions used at the same time inside lookup options")
 		}
-		lo.FilterOptions = &filter.StorageOptions{
+		filterOptions = &filter.StorageOptions{
 			Operation: filter.Latest,
 			Field:     filter.PredicateField,
 		}
-		// To guarantee that "lo.FilterOptions" will be cleaned at the driver level, since it was artificially created at the driver level for "LatestAnchor".
-		defer func() {
-			lo.FilterOptions = (*filter.StorageOptions)(nil)
-		}()
 	}
-	if lo.FilterOptions != nil {
-		selectedTrpls, err = executeFilter(selectedTrpls, nil, lo.FilterOptions)
+	if filterOptions != nil {
+		selectedTrpls, err = executeFilter(selectedTrpls, nil, filterOptions)
 		if err != nil {
 			return err
 		}
@@ -638,21 +632,19 @@ func (m *memory) PredicatesForSubject(ctx context.Context, s *node.Node, lo *sto
 	selectedTrpls := applyGlobalTimeBounds(m.idxS[sUUID], ckr)
 
 	var err error
+	// The caller's lookup options are never modified: they may be shared between goroutines.
+	filterOptions := lo.FilterOptions
 	if lo.LatestAnchor {
-		if lo.FilterOptions != nil {
+		if filterOptions != nil {
 			return fmt.Errorf("cannot have LatestAnchor and FilterOptions used at the same time inside lookup options")
 		}
-		lo.FilterOptions = &filter.StorageOptions{
+		filterOptions = &filter.StorageOptions{
 			Operation: filter.Latest,
 			Field:     filter.PredicateField,
 		}
-		// To guarantee that "lo.FilterOptions" will be cleaned at the driver level, since it was artificially created at the driver level for "LatestAnchor".
-		defer func() {
-			lo.FilterOptions = (*filter.StorageOptions)(nil)
-		}()
 	}
-	if lo.FilterOptions != nil {
-		selectedTrpls, err = executeFilter(selectedTrpls, nil, lo.FilterOptions)
+	if filterOptions != nil {
+		selectedTrpls, err = executeFilter(selectedTrpls, nil, filterOptions)
 		if err != nil {
 			return err
 		}
@@ -691,21 +683,19 @@ func (m *memory) PredicatesForObject(ctx context.Context, o *triple.Object, lo *
 	selectedTrpls := applyGlobalTimeBounds(m.idxO[oUUID], ckr)
 
 	var err error
+	// The caller's lookup options are never modified: they may be shared between goroutines.
+	filterOptions := lo.FilterOptions
 	if lo.LatestAnchor {
-		if lo.FilterOptions != nil {
+		if filterOptions != nil {
 			return fmt.Errorf("cannot have LatestAnchor and FilterOptions used at the same time inside lookup options")
 		}
-		lo.FilterOptions = &filter.StorageOptions{
+		filterOptions = &filter.StorageOptions{
 			Operation: filter.Latest,
 			Field:     filter.PredicateField,
 		}
-		// To guarantee that "lo.FilterOptions" will be cleaned at the driver level, since it was artificially created at the driver level for "LatestAnchor".
-		defer func() {
-			lo.FilterOptions = (*filter.StorageOptions)(nil)
-		}()
 	}
-	if lo.FilterOptions != nil {
-		selectedTrpls, err = executeFilter(selectedTrpls, nil, lo.FilterOptions)
+	if filterOptions != nil {
+		selectedTrpls, err = executeFilter(selectedTrpls, nil, filterOptions)
 		if err != nil {
 			return err
 		}
@@ -744,21 +734,19 @@ func (m *memory) TriplesForSubject(ctx context.Context, s *node.Node, lo *storag
 	selectedTrpls := applyGlobalTimeBounds(m.idxS[sUUID], ckr)
 
 	var err error
+	// The caller's lookup options are never modified: they may be shared between goroutines.
+	filterOptions := lo.FilterOptions
 	if lo.LatestAnchor {
-		if lo.FilterOptions != nil {
+		if filterOptions != nil {
 			return fmt.Errorf("cannot have LatestAnchor and FilterOptions used at the same time inside lookup options")
 		}
-		lo.FilterOptions = &filter.StorageOptions{
+		filterOptions = &filter.StorageOptions{
 			Operation: filter.Latest,
 			Field:     filter.PredicateField,
 		}
-		// To guarantee that "lo.FilterOptions" will be cleaned at the driver level, since it was artificially created at the driver level for "LatestAnchor".
-		defer func() {
-			lo.FilterOptions = (*filter.StorageOptions)(nil)
-		}()
 	}
-	if lo.FilterOptions != nil {
-		selectedTrpls, err = executeFilter(selectedTrpls, nil, lo.FilterOptions)
+	if filterOptions != nil {
+		selectedTrpls, err = executeFilter(selectedTrpls, nil, filterOptions)
 		if err != nil {
 			return err
 		}
@@ -797,21 +785,19 @@ func (m *memory) TriplesForPredicate(ctx context.Context, p *predicate.Predicate
 	selectedTrpls := applyGlobalTimeBounds(m.idxP[pUUID], ckr)
 
 	var err error
+	// The caller's lookup options are never modified: they may be shared between goroutines.
+	filterOptions := lo.FilterOptions
 	if lo.LatestAnchor {
-		if lo.FilterOptions != nil {
+		if filterOptions != nil {
 			return fmt.Errorf("cannot have LatestAnchor and FilterOptions used at the same time inside lookup options")
 		}
-		lo.FilterOptions = &filter.StorageOptions{
+		filterOptions = &filter.StorageOptions{
 			Operation: filter.Latest,
 			Field:     filter.PredicateField,
 		}
-		// To guarantee that "lo.FilterOptions" will be cleaned at the driver level, since it was artificially created at the driver level for "LatestAnchor".
-		defer func() {
-			lo.FilterOptions = (*filter.StorageOptions)(nil)
-		}()
 	}
-	if lo.FilterOptions != nil {
-		selectedTrpls, err = executeFilter(selectedTrpls, p, lo.FilterOptions)
+	if filterOptions != nil {
+		selectedTrpls, err = executeFilter(selectedTrpls, p, filterOptions)
 		if err != nil {
 			return err
 		}
@@ -850,21 +836,19 @@ func (m *memory) TriplesForObject(ctx context.Context, o *triple.Object, lo *sto
 	selectedTrpls := applyGlobalTimeBounds(m.idxO[oUUID], ckr)
 
 	var err error
+	// The caller's lookup options are never modified: they may be shared between goroutines.
+	filterOptions := lo.FilterOptions
 	if lo.LatestAnchor {
-		if lo.FilterOptions != nil {
+		if filterOptions != nil {
 			return fmt.Errorf("cannot have LatestAnchor and FilterOptions used at the same time inside lookup options")
 		}
-		lo.FilterOptions = &filter.StorageOptions{
+		filterOptions = &filter.StorageOptions{
 			Operation: filter.Latest,
 			Field:     filter.PredicateField,
 		}
-		// To guarantee that "lo.FilterOptions" will be cleaned at the driver level, since it was artificially created at the driver level for "LatestAnchor".
-		defer func() {
-			lo.FilterOptions = (*filter.StorageOptions)(nil)
-		}()
 	}
-	if lo.FilterOptions != nil {
-		selectedTrpls, err = executeFilter(selectedTrpls, nil, lo.FilterOptions)
+	if filterOptions != nil {
+		selectedTrpls, err = executeFilter(selectedTrpls, nil, filterOptions)
 		if err != nil {
 			return err
 		}
@@ -905,21 +889,19 @@ func (m *memory) TriplesForSubjectAndPredicate(ctx context.Context, s *node.Node
 	selectedTrpls := applyGlobalTimeBounds(m.idxSP[spIdx], ckr)
 
 	var err error
+	// The caller's lookup options are never modified: they may be shared between goroutines.
+	filterOptions := lo.FilterOptions
 	if lo.LatestAnchor {
-		if lo.FilterOptions != nil {
+		if filterOptions != nil {
 			return fmt.Errorf("cannot have LatestAnchor and FilterOptions used at the same time inside lookup options")
 		}
-		lo.FilterOptions = &filter.StorageOptions{
+		filterOptions = &filter.StorageOptions{
 			Operation: filter.Latest,
 			Field:     filter.PredicateField,
 		}
-		// To guarantee that "lo.FilterOptions" will be cleaned at the driver level, since it was artificially created at the driver level for "LatestAnchor".
-		defer func() {
-			lo.FilterOptions = (*filter.StorageOptions)(nil)
-		}()
 	}
-	if lo.FilterOptions != nil {
-		selectedTrpls, err = executeFilter(selectedTrpls, p, lo.FilterOptions)
+	if filterOptions != nil {
+		selectedTrpls, err = executeFilter(selectedTrpls, p, filterOptions)
 		if err != nil {
 			return err
 		}
@@ -960,21 +942,19 @@ func (m *memory) TriplesForPredicateAndObject(ctx context.Context, p *predicate.
 	selectedTrpls := applyGlobalTimeBounds(m.idxPO[poIdx], ckr)
 
 	var err error
+	// The caller's lookup options are never modified: they may be shared between goroutines.
+	filterOptions := lo.FilterOptions
 	if lo.LatestAnchor {
-		if lo.FilterOptions != nil {
+		if filterOptions != nil {
 			return fmt.Errorf("cannot have LatestAnchor and FilterOptions used at the same time inside lookup options")
 		}
-		lo.FilterOptions = &filter.StorageOptions{
+		filterOptions = &filter.StorageOptions{
 			Operation: filter.Latest,
 			Field:     filter.PredicateField,
 		}
-		// To guarantee that "lo.FilterOptions" will be cleaned at the driver level, since it was artificially created at the driver level for "LatestAnchor".
-		defer func() {
-			lo.FilterOptions = (*filter.StorageOptions)(nil)
-		}()
 	}
-	if lo.FilterOptions != nil {
-		selectedTrpls, err = executeFilter(selectedTrpls, p, lo.FilterOptions)
+	if filterOptions != nil {
+		selectedTrpls, err = executeFilter(selectedTrpls, p, filterOptions)
 		if err != nil {
 			return err
 		}
@@ -1021,21 +1001,19 @@ func (m *memory) Triples(ctx context.Context, lo *storage.LookupOptions, trpls c
 	selectedTrpls := applyGlobalTimeBounds(m.idx, ckr)
 
 	var err error
+	// The caller's lookup options are never modified: they may be shared between goroutines.
+	filterOptions := lo.FilterOptions
 	if lo.LatestAnchor {
-		if lo.FilterOptions != nil {
+		if filterOptions != nil {
 			return fmt.Errorf("cannot have LatestAnchor and FilterOptions used at the same time inside lookup options")
 		}
-		lo.FilterOptions = &filter.StorageOptions{
+		filterOptions = &filter.StorageOptions{
 			Operation: filter.Latest,
 			Field:     filter.PredicateField,
 		}
-		// To guarantee that "lo.FilterOptions" will be cleaned at the driver level, since it was artificially created at the driver level for "LatestAnchor".
-		defer func() {
-			lo.FilterOptions = (*filter.StorageOptions)(nil)
-		}()
 	}
-	if lo.FilterOptions != nil {
-		selectedTrpls, err = executeFilter(selectedTrpls, nil, lo.FilterOptions)
+	if filterOptions != nil {
+		selectedTrpls, err = executeFilter(selectedTrpls, nil, filterOptions)
 		if err != nil {
 			return err
 		}
